@@ -35,6 +35,7 @@ CONSTANTS EsrchFatal,   \* TRUE = tree before the fix: ESRCH from a ptrace reque
           AnyDecision   \* TRUE = C15: the handler's answer is arbitrary (tracee memory unreadable / garbage)
 
 BanRet == 13
+EEXIST == 17
 SIGTRAP == 5   SIGKILL == 9   SIGUSR1 == 10   SIGCHLD == 17   SIGSTOP == 19   SIGSYS == 31
 
 VARIABLES
@@ -46,7 +47,8 @@ VARIABLES
   pend,     \* [task -> set of pending signals (other than SIGCHLD)]
   nchld,    \* [leader -> pending SIGCHLD notifications of that process, 0..2] (a stop and an exit of a child may be taken separately)
   gtok,     \* [task -> group-stop participations still owed]
-  regs,     \* [task -> [skip, ret]] what the tracer wrote into the registers during the current seccomp stop
+  regs,     \* [task -> [skip, ret, d]] what the tracer wrote into the registers during the current seccomp
+            \*   stop, and the handler's answer for this call ("none" = the handler was not asked)
   opts,     \* [task -> BOOLEAN] PTRACE_O_TRACE{FORK,VFORK,CLONE,SECCOMP,EXEC} in force
   scnt,     \* [task -> number of SIGUSR1 handler runs during the current S op]
   lph,      \* launcher phase of task 1: "raise","stopped","prog"
@@ -70,7 +72,8 @@ ovars == <<executed, uexec, rets, trapped>>
 cvars == <<script, dec, par, knd, ldr>>
 vars == <<cvars, kvars, tvars, ovars>>
 \* model-checking view: the order of handler consultations is history only
-MCView == <<cvars, kvars, tvars, executed, uexec, rets, { trapped[i] : i \in DOMAIN trapped }>>
+MCView == <<cvars, kvars, tvars, executed, uexec, rets,
+            [key \in DOMAIN dec |-> SelectSeq(trapped, LAMBDA e : e.m = key)]>>
 
 NoResult == [status |-> "none", exit |-> 0]
 Tasks == DOMAIN script
@@ -98,7 +101,7 @@ InitCase(c) ==
   /\ pend = [k \in DOMAIN c.script |-> {}]
   /\ nchld = [k \in DOMAIN c.script |-> 0]
   /\ gtok = [k \in DOMAIN c.script |-> 0]
-  /\ regs = [k \in DOMAIN c.script |-> [skip |-> FALSE, ret |-> 0]]
+  /\ regs = [k \in DOMAIN c.script |-> [skip |-> FALSE, ret |-> 0, d |-> "none"]]
   /\ opts = [k \in DOMAIN c.script |-> FALSE]
   /\ scnt = [k \in DOMAIN c.script |-> 0]
   /\ esc = [k \in DOMAIN c.script |-> FALSE]
@@ -112,7 +115,11 @@ Init == \E c \in Cases : InitCase(c)
 Live == tpc # "done"           \* the run has not been torn down yet
 Runs(k) == Live /\ ts[k] = "run"
 
-Log(k, r) == rets' = [rets EXCEPT ![k] = Append(@, [i |-> pc[k], op |-> CurOp(k).k, ret |-> r])]
+Log(k, r) == rets' = [rets EXCEPT ![k] = Append(@, [i |-> pc[k], op |-> CurOp(k).k, ret |-> r, d |-> "", x |-> FALSE])]
+\* a traced call returns r; d = the handler's answer for THIS occurrence, x = the call really ran
+LogT(k, r, d, x) == rets' = [rets EXCEPT ![k] = Append(@, [i |-> pc[k], op |-> CurOp(k).k, ret |-> r, d |-> d, x |-> x])]
+\* consultations of the handler about a key so far
+Asked(key) == Cardinality({ i \in DOMAIN trapped : trapped[i].m = key })
 
 (* ------------------------------------------------------------------ kernel: stops *)
 \* a pending signal is taken: signal-delivery-stop (a vfork parent sleeps uninterruptibly)
@@ -155,9 +162,9 @@ Ready(k) == Runs(k) /\ InProg(k)
 
 \* traced call, phase 1: SECCOMP_RET_TRACE -> seccomp stop before the call runs
 K_SysEnter(k) ==
-  /\ Ready(k) /\ sub[k] = "" /\ CurOp(k).k = "T"
+  /\ Ready(k) /\ sub[k] = "" /\ CurOp(k).k \in {"T", "N"}
   /\ sub' = [sub EXCEPT ![k] = "in"]
-  /\ regs' = [regs EXCEPT ![k] = [skip |-> FALSE, ret |-> 0]]
+  /\ regs' = [regs EXCEPT ![k] = [skip |-> FALSE, ret |-> 0, d |-> "none"]]
   /\ ts' = [ts EXCEPT ![k] = "stop"] /\ ev' = [ev EXCEPT ![k] = Ev("sec", 0)]
   /\ UNCHANGED <<pc, pend, nchld, gtok, opts, scnt, lph, esc, cvars, tvars, ovars>>
 \* phase 2: resumed; the call runs unless the tracer neutralised it
@@ -166,8 +173,10 @@ K_SysExit(k) ==
   /\ sub' = [sub EXCEPT ![k] = ""]
   /\ pc' = [pc EXCEPT ![k] = @ + 1]
   /\ IF regs[k].skip
-       THEN /\ Log(k, regs[k].ret) /\ UNCHANGED executed
-       ELSE /\ executed' = executed \cup {CurOp(k).a} /\ Log(k, 0)
+       THEN /\ LogT(k, regs[k].ret, regs[k].d, FALSE) /\ UNCHANGED executed
+       ELSE /\ executed' = executed \cup {CurOp(k).a}
+            \* the real result: a second mkdirat of the same name fails with EEXIST
+            /\ LogT(k, IF CurOp(k).k = "T" /\ CurOp(k).a \in executed THEN -EEXIST ELSE 0, regs[k].d, TRUE)
   /\ UNCHANGED <<ts, ev, pend, nchld, gtok, regs, opts, scnt, lph, esc, cvars, tvars, uexec, trapped>>
 
 K_Untraced(k) ==
@@ -366,11 +375,13 @@ T_Trap ==
        \* C15: reading the path from tracee memory yields nothing, part of it, or a full buffer
        \* without NUL; whatever the handler then makes of it, it answers with one of its verdicts
        \E mo \in (IF AnyDecision THEN {"ok", "nothing", "partial", "fullnonul"} ELSE {"ok"}) :
-       \E d \in (IF AnyDecision THEN Decisions ELSE {dec[CurOp(cur).a]}) :
-         /\ trapped' = Append(trapped, [m |-> CurOp(cur).a, act |-> d])
+       \* the handler's answer to this consultation: the decision function is indexed by occurrence
+       \E d \in (IF AnyDecision THEN Decisions
+                 ELSE {PolicyAt(dec[KeyOf(CurOp(cur))], Asked(KeyOf(CurOp(cur))) + 1)}) :
+         /\ trapped' = Append(trapped, [m |-> KeyOf(CurOp(cur)), act |-> d])
          /\ CASE mo = "fullnonul" /\ ClenPanics -> Finish("RunnerError", 0) /\ UNCHANGED regs
-              [] d = "allow" -> tpc' = "cont" /\ UNCHANGED <<regs, result>>
-              [] d = "ban" -> tpc' = "cont" /\ regs' = [regs EXCEPT ![cur] = [skip |-> TRUE, ret |-> -BanRet]] /\ UNCHANGED result
+              [] d = "allow" -> tpc' = "cont" /\ regs' = [regs EXCEPT ![cur].d = "allow"] /\ UNCHANGED result
+              [] d = "ban" -> tpc' = "cont" /\ regs' = [regs EXCEPT ![cur] = [skip |-> TRUE, ret |-> -BanRet, d |-> "ban"]] /\ UNCHANGED result
               [] d = "kill" -> Finish("Disallowed", 0) /\ UNCHANGED regs
      ELSE /\ UNCHANGED <<trapped, regs>>
           /\ IF EsrchFatal THEN Finish("Disallowed", 0) ELSE tpc' = "cont" /\ UNCHANGED result
@@ -399,22 +410,21 @@ FairSpec == Spec /\ WF_vars(TNext) /\ WF_vars(KNext)
 (* ================================================================== PROPERTY LAYER *)
 TrappedSet == { trapped[i].m : i \in DOMAIN trapped }
 Finished == tpc \in {"fin", "done"}
-\* every return value the program saw for a marker call satisfies P(marker, ret)
-AllRets(P(_, _)) == \A k \in Tasks : \A i \in DOMAIN rets[k] :
-                      rets[k][i].op = "T" => P(script[k][rets[k][i].i].a, rets[k][i].ret)
+\* every traced call that returned to the program satisfies P(entry); an entry carries the answer
+\* the handler gave for THAT occurrence (d), what the program saw (ret) and whether it ran (x)
+AllRets(P(_)) == \A k \in Tasks : \A i \in DOMAIN rets[k] : rets[k][i].op \in {"T", "N"} => P(rets[k][i])
 
-\* C03: a banned call never runs and its caller sees -BanRet
-EnforcedBan == /\ \A m \in DOMAIN dec : dec[m] = "ban" => m \notin executed
-               /\ AllRets(LAMBDA m, r : dec[m] = "ban" => r = -BanRet)
-\* C03: a killed call never runs, never returns, and the run ends as Disallowed Syscall
-EnforcedKill == /\ \A m \in DOMAIN dec : dec[m] = "kill" =>
-                     m \notin executed /\ (m \in TrappedSet /\ Finished => result.status = "Disallowed")
-                /\ AllRets(LAMBDA m, r : dec[m] # "kill")
+\* C03: a banned call does not run and its caller sees -BanRet
+EnforcedBan == AllRets(LAMBDA e : e.d = "ban" => e.ret = -BanRet /\ ~e.x)
+\* C03: a killed call never returns (so never runs), and the run ends as Disallowed Syscall
+EnforcedKill == /\ AllRets(LAMBDA e : e.d # "kill")
+                /\ ((\E i \in DOMAIN trapped : trapped[i].act = "kill") /\ Finished /\ ~AnyDecision
+                      => result.status = "Disallowed")
 \* C03: an allowed call runs with its real result
-EnforcedAllow == AllRets(LAMBDA m, r : dec[m] = "allow" => r = 0 /\ m \in executed)
+EnforcedAllow == AllRets(LAMBDA e : e.d = "allow" => e.x /\ e.ret \in {0, -EEXIST})
 \* C03: nothing runs behind the tracer's back: a call that ran was put to the handler first, and no
 \* task runs program code before the tracer has seen its first stop
-EnforcedTraced == /\ executed \subseteq TrappedSet
+EnforcedTraced == /\ AllRets(LAMBDA e : e.d # "none")
                   /\ \A k \in Tasks : (ts[k] = "run" /\ InProg(k)) => (k \in traced /\ opts[k])
 Enforced == EnforcedBan /\ EnforcedKill /\ EnforcedAllow /\ EnforcedTraced
 
